@@ -416,6 +416,8 @@ def gen_violating(rng, name, content):
            # 42 header mutations (4.13), stray characters at the end of preprocessor lines
            "header_line_removed", "header_frame_short", "header_slashes", "header_after_blank", "header_field_removed",
            "stray_eol_preproc", "stray_eol_preproc"]
+    # violations at extreme positions: as late as possible in the longest function / in the file, after a long preamble
+    ops += ["comment_in_func_late", "decl_late", "late_include", "long_preamble", "comment_in_func_late"]
     if name.endswith(".h"):
         # include-guard mutations (4.14)
         ops += ["guard_no_define", "guard_no_define", "guard_wrong_symbol", "guard_lower", "guard_doubled", "decl_before_guard",
@@ -448,6 +450,32 @@ def gen_violating(rng, name, content):
                 del lines[gi]
             elif op == "guard_define_other":
                 lines[di] = "# define " + sym + "_X"
+        return "\n".join(lines), op
+    if op in ("comment_in_func_late", "decl_late"):
+        # the last statement line of the longest function body
+        best = None
+        start = None
+        for j, ln in enumerate(lines):
+            if ln == "{":
+                start = j
+            elif ln == "}" and start is not None:
+                if best is None or j - start > best[1] - best[0]:
+                    best = (start, j)
+                start = None
+        if best:
+            # somewhere in the last part of the body (often inside a nested block), not necessarily the very last line
+            lo = best[0] + 1 + int((best[1] - best[0] - 1) * 0.6)
+            j = rng.randrange(lo, best[1]) if best[1] > lo else best[1] - 1
+            while j > best[0] and not lines[j].startswith("\t"):
+                j -= 1
+            ind = lines[j][:len(lines[j]) - len(lines[j].lstrip("\t"))] or "\t"
+            lines.insert(j, f"{ind}/* late */" if op == "comment_in_func_late" else f"{ind}int\tlate_var;")
+        return "\n".join(lines), op
+    if op == "late_include":
+        lines += ["#include <string.h>", ""] if lines and lines[-1] == "" else ["", "#include <string.h>"]
+        return "\n".join(lines), op
+    if op == "long_preamble":
+        lines[12:12] = ["// preamble %d" % k for k in range(20)] + [""]
         return "\n".join(lines), op
     if op == "header_line_removed":
         del lines[rng.randrange(11)]
@@ -609,6 +637,8 @@ def specials():
            "# include \"a.h\" junk", "# define ZOO_ODD_H 2", "# undef", "# if 0x1F & 0b1\n# endif", "# if (1\n# endif", "# include <stdio.h"]
     for k, d in enumerate(odd):
         out.append((f"zoo_odd{k}.h", header42(f"zoo_odd{k}.h") + f"\n#ifndef ZOO_ODD_H\n# define ZOO_ODD_H\n\n{d}\n\nint\tft_a(int a);\n\n#endif\n", "odd"))
+        d0 = "\n".join(ln.replace("# ", "#", 1) if ln.startswith("# ") else ln for ln in d.split("\n"))
+        out.append((f"zoo_odd{k}.c", header42(f"zoo_odd{k}.c") + f"\n{d0}\n\nint\tmain(void)\n{{\n\treturn (0);\n}}\n", "odd"))
     # statements whose handling depends on the debug level in the rules (fatal by default, tolerated under -d)
     for k, body in enumerate(["\tgoto 1;\n", "\tgoto ;\n", "\tgoto *p;\n", "\tgoto (a);\n", "\tint\ti;\n\n\ti = 0;\n\t) i++;\n"]):
         out.append((f"zoo_dbg{k}.c", ok_func(f"zoo_dbg{k}.c", body=body + "\treturn (0);\n"), "zoo"))
